@@ -63,6 +63,23 @@ func main() {
 			c := w.contracts[k]
 			fmt.Printf("%-70s %v modular=%v lemma=%v\n", k, c.Props, c.Modular, c.Lemma)
 		}
+	case "paramnames":
+		// paramnames: "<file>\t<contract name>\t<receiver and parameter names>" for every contract on a repository function
+		w := loadWorld()
+		for _, fc := range w.contracts {
+			if fc.Lemma {
+				continue
+			}
+			fn := w.resolveFn(fc)
+			if fn == nil {
+				continue
+			}
+			var ps []string
+			for _, p := range fn.Params {
+				ps = append(ps, p.Name())
+			}
+			fmt.Printf("%s\t%s\t%s\n", fc.File, fc.Name, strings.Join(ps, " "))
+		}
 	case "loops":
 		w := loadWorld()
 		for _, fc := range w.contracts {
